@@ -50,7 +50,9 @@ class ScalarField:
 
     def __call__(self, point_: Point) -> Expr:
         if not callable(self._point_function):
-            return self._point_function
+            # stored value can be written in base scalars of the field coordinate system, eg C.x * C.y,
+            # field operators read it as a function of the point, so should applying the field
+            return _subs_with_point(self._point_function, self._coordinate_system, point_)
         # Point with general Point type is not checked against coordinate system.
         # It's up to user to make sure that field function works with general Point type.
         if (isinstance(point_, CartesianPoint) and
